@@ -108,6 +108,43 @@ func (l *Log) WaitCount(kind string, n int, giveUp func(counts map[string]int) b
 	return true
 }
 
+// WaitFor blocks until pred (evaluated whenever an event was logged; it must take its own locks) holds,
+// until Abort, or until the steering cap expires. It reports whether pred held.
+func (l *Log) WaitFor(pred func() bool, cap time.Duration) bool {
+	deadline := time.Now().Add(cap)
+	stop := make(chan struct{})
+	defer close(stop)
+	go func() {
+		t := time.NewTimer(cap)
+		defer t.Stop()
+		select {
+		case <-t.C:
+			l.mu.Lock()
+			l.cond.Broadcast()
+			l.mu.Unlock()
+		case <-stop:
+		}
+	}()
+	l.mu.Lock()
+	defer l.mu.Unlock()
+	for {
+		seq := l.seq
+		l.mu.Unlock()
+		ok := pred()
+		l.mu.Lock()
+		if ok {
+			return true
+		}
+		if l.abort || !time.Now().Before(deadline) {
+			return false
+		}
+		if l.seq != seq {
+			continue // something was logged while pred was evaluated
+		}
+		l.cond.Wait()
+	}
+}
+
 // Abort releases every waiter (used when a case is abandoned as stuck).
 func (l *Log) Abort() {
 	l.mu.Lock()
